@@ -7,7 +7,7 @@ from .common import Failure, f2h, h2f, parse_reply, vec, fs
 ID = "C06"
 BIN = "c06"
 PROOF_MODULES = ["Compute.Props.C06", "Compute.Lemmas.C06Perm", "Compute.Lemmas.C06Spec", "Compute.Lemmas.C06Basic",
-                 "Compute.Props.C06Families", "Compute.Props.C06Review"]
+                 "Compute.Props.C06Families", "Compute.Props.C06Review", "Compute.Props.C06History"]
 REQUIRED_THEOREMS = [
     "Cv.C06.dbeta_spec", "Cv.C06.ddbeta_spec", "Cv.C06.penalty_spec",
     "Cv.C06.fixed_point_iff_score", "Cv.C06.family_tables", "Cv.C06.gaussian_deviance_eq_rss", "Cv.C06.gaussian_normal_equations",
@@ -22,6 +22,7 @@ REQUIRED_THEOREMS = [
     "Cv.C06.fit_last_pass", "Cv.C06.gaussian_pass_solves", "Cv.C06.gaussian_fit_normal_equations",
     "Cv.C06.covariance_isInverse", "Cv.C06.fit_ok_converged_ne_zero", "Cv.C06.hasConverged_zero",
     "Cv.C06.gaussian_fit_normal_equations_solve",
+    "Cv.C06.view_after_fit", "Cv.C06.fit_history_independent", "Cv.C06.setters_keep_stored",
 ]
 RULE = ("six families x designs n 20..120 (quick) / 20..500 (thorough), p 1..6 with standardised random, polynomial and "
         "indicator columns x {no weights, random weights, constant c in {2,3,.5,.25,7,10}, piecewise constant, all-equal-but-one} x {no offset, offset} x alpha in {0, 0.1, 1, 10} x tolerance "
@@ -29,7 +30,9 @@ RULE = ("six families x designs n 20..120 (quick) / 20..500 (thorough), p 1..6 w
         "followed (with probability 1/3) by the same problem with permuted rows; plus panic classes; every public method of "
         "ExponentialFamily called directly (has_dispersion, variance, inv_link, d_inv_link, deviance, penalized_deviance, "
         "initial_working_response/weights) on domain-boundary lists and random points, GLM::set_coef after a fit / on a fresh "
-        "object / before a (re)fit with right and wrong lengths; "
+        "object / before a (re)fit with right and wrong lengths; object histories on ONE GLM: k fits with setters in between (op "
+        "hist) and fits interleaved with READS of every accessor without any setter in between, with pub-field assignment, shape "
+        "changes and read-set-read chains (op hist2), every fit / read compared with a fresh twin; "
         "non-trivial = distinct (family, p, weights?, offset?, alpha, tolerance decade, status)")
 EXHAUSTIVE = {"quick": False, "thorough": False}
 NOT_PROVED = [
@@ -336,6 +339,15 @@ def corpus():
     # all-zero counts: ln(mean(y)) = -inf, the fit must end in Err (never Ok)
     L.append(mkline("poisson", 20, 1, [1.0] * 20, [0.0] * 20, None, None, 0.0, 1e-8, 50))
     L.append(mkline("quasipoisson", 20, 2, [v for t in range(20) for v in (1.0, t / 10.0 - 1.0)], [0.0] * 20, None, None, 0.1, 1e-8, 50))
+    # seeded change C06s (covariance cache cleared by the setters but not by `fit`): fit -> read -> fit (no setter) -> read
+    xa = [v for t in [-1.5, -1.2, -0.9, -0.6, -0.3, 0.0, 0.3, 0.6, 0.9, 1.2, 1.5, 1.8] for v in (1.0, t)]
+    ya = [0.0, 1.0, 0.0, 2.0, 1.0, 3.0, 2.0, 5.0, 4.0, 6.0, 9.0, 8.0]
+    yb = [3.0, 1.0, 4.0, 1.0, 5.0, 9.0, 2.0, 6.0, 5.0, 3.0, 5.0, 8.0]
+    for fam_, y1, y2 in (("poisson", ya, yb), ("gaussian", [0.3 * v + 0.1 for v in ya], yb)):
+        steps = [("F", 1, 0.0, 1e-10, 200, (12, 2, xa, y1, None, None)), ("R",),
+                 ("F", 0, 0.0, 1e-10, 200, (12, 2, xa, y2, None, None)), ("R",),
+                 ("F", 0, 0.0, 1e-10, 200, (20, 1, [1.0] * 20, [2.0, 4.0] * 10, None, None)), ("R",)]
+        L.append(h2_line(fam_, steps))
     # panic classes
     L.append(mkline("gaussian", 6, 2, [2.0] + x[1:], y, None, None, 0.0, 1e-8, 50))          # not a design matrix
     L.append(mkline("gaussian", 6, 2, x, y, [1.0, 2.0], None, 0.0, 1e-8, 50))                 # wrong number of weights
@@ -397,6 +409,7 @@ def gen(rng, tier):
     family_strata(rng.fork("families"), tier, lines, cover)
     setcoef_strata(rng.fork("setcoef"), tier, lines, cover)
     history_strata(rng.fork("history"), tier, lines, cover)
+    read_history_strata(rng.fork("read-history"), tier, lines, cover)
     return lines, cover
 
 
@@ -847,7 +860,125 @@ def history_strata(rng, tier, lines, cover):
             emit("setters", fam, [(1.0, 1e-10, 200, [1e3] * p0, Awo), (1.0, 1e-10, 1, [0.0] * p0, A), (1.0, 1e-10, 200, [-5.0] * (p0 + 1), Awo)])
 
 
+# ---------------------------------------------------------------- object histories with READS between the fits (op hist2)
+TOL0 = 1e-5      # GLM::new
+
+
+def h2_line(fam, steps):
+    """steps: ("F", mode, alpha, tol, maxiter, problem) | ("R",) | ("SP", a) | ("ST", t) | ("SW", w) | ("SO", off) | ("SC", c)"""
+    toks = []
+    for st in steps:
+        if st[0] == "F":
+            toks.append("F %d %s %s %d %s" % (st[1], f2h(st[2]), f2h(st[3]), st[4], probtoks(*st[5])))
+        elif st[0] == "R":
+            toks.append("R")
+        elif st[0] in ("SP", "ST"):
+            toks.append("%s %s" % (st[0], f2h(st[1])))
+        else:
+            toks.append("%s %s" % (st[0], vec(st[1])))
+    return "hist2 %s %d %s" % (fam, len(steps), " ".join(toks))
+
+
+def parse_h2(line):
+    t = line.split()
+    fam, k = t[1], int(t[2])
+    pos, steps = 3, []
+    for _ in range(k):
+        kd = t[pos]
+        pos += 1
+        if kd == "F":
+            mode, a, tl, mi = int(t[pos]), h2f(t[pos + 1]), h2f(t[pos + 2]), int(t[pos + 3])
+            pr, pos = _parse_problem(t, pos + 4)
+            steps.append(("F", mode, a, tl, mi, pr))
+        elif kd == "R":
+            steps.append(("R",))
+        elif kd in ("SP", "ST"):
+            steps.append((kd, h2f(t[pos])))
+            pos += 1
+        else:
+            m = int(t[pos])
+            steps.append((kd, [h2f(v) for v in t[pos + 1:pos + 1 + m]]))
+            pos += 1 + m
+    return fam, steps
+
+
+def h2_twins(fam, steps):
+    """for every R: the `glm` request of a FRESH object fitted with the configuration the last fit saw, or None when a
+    set_offset / set_coef since that fit changed what predict / coef read (those reads are decided by the tie only)"""
+    alpha, tol, w, off = 0.0, TOL0, None, None
+    last, dirty, out = None, False, []
+    for st in steps:
+        if st[0] == "F":
+            _, mode, a, tl, mi, (n, p, x, y, pw, po) = st
+            if mode != 0:
+                alpha, tol = a, tl
+            w = pw if pw is not None else w
+            off = po if po is not None else off
+            last, dirty = mkline(fam, n, p, x, y, w, off, alpha, tol, mi), False
+        elif st[0] == "R":
+            out.append(None if (dirty or last is None) else last)
+        elif st[0] == "SP":
+            alpha = st[1]
+        elif st[0] == "ST":
+            tol = st[1]
+        elif st[0] == "SW":
+            w = st[1]
+        elif st[0] == "SO":
+            off, dirty = st[1], True
+        elif st[0] == "SC":
+            dirty = True
+    return out
+
+
+def read_history_lines(rng, fam, quick=True):
+    """the histories of one family: reads (R) interleaved with fits on ONE object, with and without setters in between"""
+    def prob(p=None, n=None, has_w=False, has_off=False):
+        pp = p or rng.randint(1, 3)
+        nn = n or rng.randint(max(20, 15 * pp), 45)
+        x, y, w, off, _ = problem(rng, fam, nn, pp, has_w, has_off)
+        return (nn, pp, x, y, w, off)
+
+    A = prob()
+    B = prob(p=A[1], n=A[0])                       # same shape, other data
+    C = prob(p=A[1] % 3 + 1, n=rng.randint(50, 60))   # other n and p
+    Aw = (A[0], A[1], A[2], A[3], [rng.uniform(0.5, 2.0) for _ in range(A[0])], None)
+    a0, t0 = rng.choice(ALPHAS), rng.choice([1e-8, 1e-10])
+    F = lambda mode, pr, a=a0, tl=t0, mi=200: ("F", mode, a, tl, mi, pr)
+    R = ("R",)
+    out = [
+        ("fit-read-fit-read", [F(1, A), R, F(0, B), R]),                                  # no setter between the fits
+        ("fit-read-fit-read", [F(0, A), R, F(0, B), R, F(0, A), R]),                      # default alpha / tolerance throughout
+        ("shape-change-reads", [F(1, A), R, F(0, C), R, F(0, A), R]),
+        ("pub-field-assignment", [F(1, A), R, F(2, B, rng.choice(ALPHAS), 1e-9), R, F(2, Aw, 1.0, 1e-8), R]),
+        ("read-set-read", [F(1, A), R, ("SP", 10.0), R, ("ST", 1e-3), R, ("SW", [2.0] * A[0]), R,
+                           ("SO", [0.25] * A[0]), R, ("SC", [0.5] * A[1]), R]),
+        ("fit-fit-read", [F(1, A), F(0, B), R, R]),
+        ("converge-read-fail-read", [F(1, A), R, F(2, B, a0, 0.0, 3), R, F(2, A, a0, t0, 200), R]),
+        ("setter-then-fit", [F(1, A), R, ("SP", 1.0), F(0, B), R, ("SW", [float(rng.randint(1, 3)) for _ in range(B[0])]), F(0, B), R]),
+    ]
+    return out
+
+
+def read_history_strata(rng, tier, lines, cover):
+    g = cover.setdefault("read_history", {})
+    reps = 1 if tier == "quick" else 4
+    for rep in range(reps):
+        for fam in FAMILIES:
+            for tag, steps in read_history_lines(rng, fam):
+                lines.append(h2_line(fam, steps))
+                tw = h2_twins(fam, steps)
+                lines.append("# twins2 %d" % len(tw))
+                lines.extend(l if l is not None else "# none" for l in tw)
+                g[tag] = g.get(tag, 0) + 1
+                g["reads"] = g.get("reads", 0) + len(tw)
+                g["fits"] = g.get("fits", 0) + sum(1 for st in steps if st[0] == "F")
+
+
 def nontrivial(line, reply):
+    if line.startswith("hist2 ") and not reply.startswith("#"):
+        t = line.split()
+        kinds = "".join(x[0] if x in ("F", "R") else ("s" if x in ("SP", "ST", "SW", "SO", "SC") else "") for x in t[3:])
+        return "hist2 %s %s %s" % (t[1], kinds[:24], " ".join(r.split()[0] for r in reply[1:].split(";")) if reply.startswith("=") else reply[:7])
     if line.startswith("hist ") and not reply.startswith("#"):
         t = line.split()
         return "hist %s k=%s %s" % (t[1], t[2], " ".join(r.split()[0] for r in reply[1:].split(";")) if reply.startswith("=") else reply[:7])
@@ -1431,6 +1562,53 @@ def oracle(lines, impl):
                 exp = "= %s P P" % vec([h2f(v) for v in t[7:7 + m]])
                 if rep.strip() != exp:
                     fails.append(Failure(i, "setcoef:unfitted:" + t[1], "set_coef on a fresh object: reply %r, expected %r" % (rep[:80], exp[:80]), exp))
+            continue
+        if l.startswith("hist2 "):
+            # every READ of a history: equals what a fresh object fitted with the configuration of the last fit reports
+            # (bit for bit, when the twin lines follow) and passes the single-fit clauses (so the line decides itself)
+            try:
+                fam, steps = parse_h2(l)
+                tw = h2_twins(fam, steps)
+                st, _ = parse_reply(rep)
+                if st == "panic":
+                    continue
+                if st != "ok":
+                    fails.append(Failure(i, "crash:hist2 %s" % fam, "executor reply %r" % rep[:80]))
+                    continue
+                reps = [r.strip() for r in rep.strip()[1:].split(";")]
+                if len(reps) != len(tw):
+                    fails.append(Failure(i, "history:%s:shape" % fam, "%d reports for %d reads" % (len(reps), len(tw))))
+                    continue
+                has_tw = i + 1 < len(lines) and lines[i + 1].startswith("# twins2")
+                kinds = [s_[0] for s_ in steps]
+                for j, rj in enumerate(reps):
+                    if tw[j] is None:
+                        continue
+                    nf = len(fails)
+                    check_fit(mp, i, tw[j], "= " + rj, fails)
+                    bad = len(fails) > nf and any(not f.key.startswith("glm:weights") for f in fails[nf:])
+                    if has_tw and impl[i + 2 + j].strip() != "= " + rj:
+                        a, b = impl[i + 2 + j].split()[1:], rj.split()
+                        names = ["status", "coef", "deviance", "dispersion", "covariance", "standard errors", "predict", "aic", "bic", "score"]
+                        diff = "?"
+                        try:
+                            pa, pb = parse_result(a), parse_result(b)
+                            for nm, kk in zip(names, ["ok", "coef", "dev", "disp", "cov", "se", "pred", "aic", "bic", "score"]):
+                                if repr(pa[kk]) != repr(pb[kk]):
+                                    diff = nm
+                                    break
+                        except Exception:
+                            pass
+                        fails.append(Failure(i, "history:%s:read%d-of-%d" % (fam, j + 1, len(reps)),
+                                             "read %d of %d in the history %s on one GLM object: %s differs from what a fresh object fitted to the "
+                                             "same data reports (stale state survives `fit`)" % (j + 1, len(reps), " ".join(kinds), diff),
+                                             impl[i + 2 + j].strip()))
+                        break
+                    if bad:
+                        break
+            except Exception:
+                if os.environ.get("C06_DEBUG"):
+                    raise
             continue
         if l.startswith("hist "):
             # every fit of a history: Ok => the score equations hold (the same mpmath checks as for a single fit, on the
